@@ -109,3 +109,62 @@ def check():
         sys.argv = argv0
         shutil.rmtree(td, ignore_errors=True)
     return dict(reproduced=False, cases=cases)
+
+
+def check_terminal():
+    """emg3d.cli.main.main(argv): every documented terminal option arrives in the dict handed to cli.run.simulation under the name the
+    parser consumes, with its value; the three run modes are mutually exclusive; defaults leave everything to the configuration file."""
+    import sys
+    import importlib
+    cmain = importlib.import_module('emg3d.cli.main')
+    crun = importlib.import_module('emg3d.cli.run')
+    cases = 0
+    seen = []
+    orig, orig_argv = crun.simulation, sys.argv
+    crun.simulation = lambda d: seen.append(dict(d))
+    sys.argv = ['emg3d', 'x']
+
+    def fail(**kw):
+        kw.update(reproduced=True, cases=cases, how='contracts.c18_concrete.check_terminal: emg3d.cli.main.main(argv) with cli.run.simulation replaced by a recorder')
+        return kw
+    base = dict(config='emg3d.cfg', nproc=None, forward=False, misfit=False, gradient=False, path=None, survey=None, model=None, output=None, save=None,
+                load=None, cache=None, clean=False, layered=None, dry_run=False, verbosity=0)
+    table = [([], {}), (['my.cfg'], dict(config='my.cfg')), (['-n', '3'], dict(nproc=3)), (['--nproc', '5'], dict(nproc=5)), (['-f'], dict(forward=True)),
+             (['--forward'], dict(forward=True)), (['-m'], dict(misfit=True)), (['--misfit'], dict(misfit=True)), (['-g'], dict(gradient=True)),
+             (['--gradient'], dict(gradient=True)), (['--path', 'p'], dict(path='p')), (['--survey', 's.h5'], dict(survey='s.h5')),
+             (['--model', 'm.h5'], dict(model='m.h5')), (['--output', 'o.npz'], dict(output='o.npz')), (['--save', 'sv.h5'], dict(save='sv.h5')),
+             (['--load', 'ld.h5'], dict(load='ld.h5')), (['--cache', 'c.h5'], dict(cache='c.h5')), (['--clean'], dict(clean=True)),
+             (['-l'], dict(layered=True)), (['--layered'], dict(layered=True)), (['-d'], dict(dry_run=True)), (['--dry-run'], dict(dry_run=True)),
+             (['--verbosity', '2'], dict(verbosity=2)), (['-v'], dict(verbosity=1)), (['-vv'], dict(verbosity=2)), (['-q'], dict(verbosity=-1)),
+             (['c.cfg', '-g', '-n', '2', '--path', 'x', '--cache', 'k.h5', '-d', '-q'], dict(config='c.cfg', gradient=True, nproc=2, path='x', cache='k.h5',
+                                                                                         dry_run=True, verbosity=-1))]
+    try:
+        for argv, diff in table:
+            cases += 1
+            seen.clear()
+            try:
+                cmain.main(list(argv))
+            except SystemExit as e:
+                return fail(clause='documented terminal option rejected', argv=argv, exit=str(e.code))
+            want = dict(base)
+            want.update(diff)
+            if len(seen) != 1:
+                return fail(clause='main() did not hand over to cli.run.simulation exactly once', argv=argv)
+            got = seen[0]
+            if got != want:
+                bad = {k: (got.get(k, '<absent>'), want.get(k, '<absent>')) for k in set(got) | set(want) if got.get(k, '<absent>') != want.get(k, '<absent>')}
+                return fail(clause='terminal options do not arrive as given (name, value)', argv=argv, differences=str(bad))
+        for argv in (['-f', '-m'], ['-m', '-g'], ['-v', '-q']):
+            cases += 1
+            seen.clear()
+            import contextlib
+            import io
+            try:
+                with contextlib.redirect_stderr(io.StringIO()):
+                    cmain.main(list(argv))
+                return fail(clause='mutually exclusive options accepted together', argv=argv)
+            except SystemExit:
+                pass
+    finally:
+        crun.simulation, sys.argv = orig, orig_argv
+    return dict(reproduced=False, cases=cases)
